@@ -358,6 +358,10 @@ pub fn enumerate_schedules(max_runs: usize, mut run: impl FnMut(Vec<usize>) -> V
     loop {
         let log = run(prefix.clone());
         runs += 1;
+        if log.is_empty() && !prefix.is_empty() {
+            // the visitor asked to stop
+            return (runs, false);
+        }
         if runs >= max_runs {
             return (runs, false);
         }
